@@ -7,7 +7,7 @@ import (
 	"strings"
 )
 
-var modelDef = regexp.MustCompile(`(?s)\(define-fun (\|[^|]*\||[^ ]+) \(\) ([^\n]+?)\n\s+(.*?)\)\n`)
+var modelDef = regexp.MustCompile(`(?s)\(define-fun ([^ ]+) \(\) ([^\n]+?)\n\s+(.*?)\)\n`)
 
 // parseModel extracts the nullary definitions of a solver model (best effort).
 func parseModel(out string) map[string]string {
@@ -25,8 +25,8 @@ func replayObligation(en *Engine, opts checkOpts, r *obResult, path string) bool
 	model := parseModel(r.R.Output)
 	params := map[string]string{}
 	for k, v := range model {
-		if strings.HasPrefix(k, "|p ") {
-			params[strings.Trim(k, "|")] = v
+		if strings.HasPrefix(k, "p_") {
+			params[k] = v
 		}
 	}
 	rec := map[string]any{
